@@ -204,7 +204,7 @@ func c06Fallback(port int) func(host, uri string) *route {
 			assets := []string{
 				fmt.Sprintf("/n/%s/1.json", tok), fmt.Sprintf("/nx/%s/1.xml", tok), fmt.Sprintf("/nm/%s/1.m3u8", tok),
 				fmt.Sprintf("/fail/%s/x.png", tok), fmt.Sprintf("/reset/%s/x.png", tok), fmt.Sprintf("/rn/%s/0", tok), fmt.Sprintf("/selfref/%s/x.json", tok),
-				fmt.Sprintf("/ar/%s/0", tok),
+				fmt.Sprintf("/ar/%s/0", tok), fmt.Sprintf("/nr/%s/1.json", tok),
 			}
 			return &route{Status: 200, Headers: map[string]string{"Content-Type": "text/html"}, Body: htmlPage("adv", assets, nil), Tag: "page"}
 		case "n": // endlessly nested JSON
@@ -228,6 +228,10 @@ func c06Fallback(port int) func(host, uri string) *route {
 			return &route{Status: 200, Headers: map[string]string{"Content-Type": "application/json"}, Body: []byte(fmt.Sprintf(`{"me":"%s%s"}`, base, uri)), Tag: "self-reference"}
 		case "ar": // endless redirect chain at asset level
 			return &route{Status: 302, Headers: map[string]string{"Location": fmt.Sprintf("/ar/%s/%d", tok, n+1)}, Tag: "asset-chain"}
+		case "nr": // endless nesting where every level is reached through a redirect
+			return &route{Status: 302, Headers: map[string]string{"Location": fmt.Sprintf("/nrd/%s/%d.json", tok, n)}, Tag: "nest-behind-redirect"}
+		case "nrd":
+			return &route{Status: 200, Headers: map[string]string{"Content-Type": "application/json"}, Body: []byte(fmt.Sprintf(`{"next":"%s/nr/%s/%d.json"}`, base, tok, n+1)), Tag: "nest-json-behind-redirect"}
 		case "failseed":
 			return &route{Status: 500, Body: []byte("no"), Tag: "seed-500"}
 		}
@@ -296,7 +300,7 @@ func c06PipeChild(scPath string) int {
 			if n > maxRedirect {
 				rep.violation("redirect-chain-too-long/"+kind, fmt.Sprintf("%s was requested: position %d of an endless redirect chain with --max-redirect %d", l.URL, n, maxRedirect), w)
 			}
-		case "n", "nx", "nm", "n2":
+		case "n", "nx", "nm", "n2", "nr", "nrd":
 			rep.distinct(fmt.Sprintf("nest/%s/level=%d", kind, min(n, 5)))
 			if n > 3 {
 				rep.violation("asset-depth-exceeded/"+kind, fmt.Sprintf("%s was requested: level %d below the page (limit 3, domains-crawl off)", l.URL, n), w)
